@@ -559,7 +559,7 @@ def gen_cases(out, tier):
             step(g, ["getitem", enc_sl((slice(None), j))])
             step(g, ["getitem", enc_sl((-1, j))])
 
-    n_chains = 150 if tier == "quick" else 2600
+    n_chains = 150 if tier == "quick" else 1500
     for k in range(n_chains):
         e, kind = gen_gbox_enc(rng)
         g = mk_gbox(e)
